@@ -3,8 +3,16 @@
 package liveness
 
 // Correspondence + property oracle for C18: query / advance / clear histories against the real testers
-// built by liveness.New, with a scripted probe function and harness-set cache timestamps; the same
-// histories go to the Lean model as `cache|…` lines.
+// built by liveness.New, with a scripted probe function and a virtual clock; the same histories go to
+// the Lean model as `cache|…` lines.
+//
+// Virtual clock: the code reads time.Now / time.Since.  Before every operation the harness moves the
+// timestamp of *every* stored entry by one and the same amount (virtual time passed minus real time
+// passed since the previous operation).  The timestamps themselves are never rewritten from a side
+// table: what the code stored is what decides the next answer, and the stored time that the harness
+// reports to the model (`addr@time`) is read back from the field.  A change to which time the code
+// stores (refresh on a hit, zero time, time + lifetime …) is therefore visible to the oracle and to
+// the correspondence.
 
 import (
 	"errors"
@@ -14,6 +22,7 @@ import (
 	"strconv"
 	"strings"
 	"sync"
+	"sync/atomic"
 	"testing"
 	"time"
 
@@ -23,10 +32,16 @@ import (
 const c18Sec = int64(time.Second)
 const c18Hour = int64(time.Hour)
 
-// jitter added per operation index so that no age ever equals a configured lifetime (whole hours):
-// ages are k·1h + d·10s with 0 < d·10s < 1h for histories shorter than 360 operations.
+// Operation times are whole seconds.  Ordinary operations are 10 s apart, time advances are whole
+// hours, "near" operations sit 1 s before / after the instant at which an earlier measurement
+// reaches a configured lifetime.  The builder never produces an operation whose distance to an
+// earlier operation equals a configured lifetime exactly (the property leaves that instant open).
 const c18Jitter = 10 * c18Sec
 const c18MaxOps = 350
+
+// A single operation (clock shift + call) that takes longer than this in real time could blur the
+// 1 s margins; such a history is dropped, not judged.
+const c18StallLimit = 400 * time.Millisecond
 
 type c18Conf struct {
 	durL, durN string
@@ -42,8 +57,15 @@ type c18Op struct {
 }
 
 type c18Meas struct {
-	t int64
-	v bool
+	t    int64
+	v    bool
+	port uint16
+}
+
+// c18Span: the measurement of one address taken at `from` was still answered from the cache at `to`
+type c18Span struct {
+	addr     string
+	from, to int64
 }
 
 var errC18Probe = errors.New("scripted probe answer")
@@ -52,12 +74,15 @@ type c18World struct {
 	conf     c18Conf
 	t        Tester
 	newErr   error
-	vtime    map[*cacheElement]int64
 	calls    []string // addresses the probe function was called with during the current operation
 	script   bool
-	meas     map[string][]c18Meas      // ground truth: every probe observed per address
-	gone     [2]map[string]bool        // address whose entry was seen to leave cache v (evicted / cleared)
+	meas     map[string][]c18Meas // ground truth: every probe observed per address
+	gone     [2]map[string]bool   // address whose entry was seen to leave cache v (evicted / cleared)
 	keysPrev [2]map[string]bool
+	spans    [2][]c18Span // black-box: which measurements were demonstrably held, and for how long
+	started  bool
+	vnow     int64     // virtual time of the current operation
+	rnow     time.Time // the real instant that stands for vnow
 }
 
 func c18Idx(v bool) int {
@@ -85,7 +110,7 @@ func (c c18Conf) line() string {
 }
 
 func newC18World(c c18Conf) *c18World {
-	w := &c18World{conf: c, vtime: map[*cacheElement]int64{}, meas: map[string][]c18Meas{}}
+	w := &c18World{conf: c, meas: map[string][]c18Meas{}}
 	for i := range w.gone {
 		w.gone[i] = map[string]bool{}
 		w.keysPrev[i] = map[string]bool{}
@@ -163,28 +188,52 @@ func (w *c18World) newLine() string {
 	return s
 }
 
-// setClock rewrites the real timestamps so that time.Since equals the virtual age at `now`.
+// setClock moves the virtual clock to `now`: every stored timestamp is shifted by the same amount,
+// virtual time passed minus real time passed, so that time.Since of an untouched entry grows by
+// exactly the virtual time that passed.  Nothing is remembered per entry.
 func (w *c18World) setClock(now int64) {
 	real := time.Now()
-	for _, v := range []bool{true, false} {
-		for _, e := range c18Elems(w.cache(v)) {
-			e.cachedTime = real.Add(-time.Duration(now - w.vtime[e]))
+	if w.started {
+		d := time.Duration(now-w.vnow) - real.Sub(w.rnow)
+		seen := map[*cacheElement]bool{}
+		for _, v := range []bool{true, false} {
+			for _, e := range c18Elems(w.cache(v)) {
+				if e != nil && !seen[e] {
+					seen[e] = true
+					e.cachedTime = e.cachedTime.Add(-d)
+				}
+			}
 		}
 	}
+	w.started, w.vnow, w.rnow = true, now, real
 }
 
-// stamp gives elements created by the last operation their virtual time and records which
-// addresses left a cache.
-func (w *c18World) stamp(now int64) {
+func c18FloorSec(ns int64) int64 {
+	q := ns / c18Sec
+	if ns%c18Sec < 0 {
+		q--
+	}
+	return q * c18Sec
+}
+
+// storedAt reads back the virtual time an entry carries: what the code stored, as moved by the clock.
+// Entries are stored within c18StallLimit after the instant that stands for the operation's time, and
+// operation times are whole seconds, so rounding down to the second is exact.
+func (w *c18World) storedAt(e *cacheElement) int64 {
+	if e == nil {
+		return -1
+	}
+	return c18FloorSec(w.vnow - int64(w.rnow.Sub(e.cachedTime)))
+}
+
+// track records which addresses left a cache (white-box: the implementation's own key sets).
+func (w *c18World) track() {
 	for _, v := range []bool{true, false} {
 		i := c18Idx(v)
 		cur := map[string]bool{}
-		for k, e := range c18Elems(w.cache(v)) {
+		for k := range c18Elems(w.cache(v)) {
 			cur[k] = true
-			if _, ok := w.vtime[e]; !ok {
-				w.vtime[e] = now
-				delete(w.gone[i], k) // a new measurement was stored
-			}
+			delete(w.gone[i], k) // an entry is stored (again)
 		}
 		for k := range w.keysPrev[i] {
 			if !cur[k] {
@@ -214,7 +263,7 @@ func (w *c18World) dumpCache(c cache) string {
 	}
 	var es []string
 	for k, e := range c18Elems(c) {
-		es = append(es, fmt.Sprintf("%s@%d", k, w.vtime[e]))
+		es = append(es, fmt.Sprintf("%s@%d", k, w.storedAt(e)))
 	}
 	sort.Strings(es)
 	ord := "-"
@@ -236,14 +285,16 @@ func (w *c18World) dump() string {
 }
 
 // lifetime returns the configured lifetime of verdict v (ok=false when that cache is not configured)
-func (w *c18World) lifetime(v bool) (int64, bool) {
-	s := w.conf.durN
+func (c c18Conf) lifetime(v bool) (int64, bool) {
+	s := c.durN
 	if v {
-		s = w.conf.durL
+		s = c.durL
 	}
 	_, d, ok := c18DurField(s)
 	return int64(d), ok
 }
+
+func (w *c18World) lifetime(v bool) (int64, bool) { return w.conf.lifetime(v) }
 
 func (w *c18World) capacity(v bool) int {
 	if v {
@@ -252,8 +303,45 @@ func (w *c18World) capacity(v bool) int {
 	return w.conf.capN
 }
 
-// runC18 executes one history on the implementation and evaluates the property on it.
-func runC18(out *vlib.Out, conf c18Conf, ops []c18Op) (string, string) {
+func c18Which(v bool) string {
+	if v {
+		return "live"
+	}
+	return "nonlive"
+}
+
+// held: the largest number of distinct addresses whose measurements demonstrably sat in one cache at
+// the same operation boundary.  A span [from, to] says: the measurement of `addr` taken at `from` was
+// answered from the cache at `to` with no probe in between, so the entry existed all the time from
+// `from` to `to`.  Spans of one address never overlap (a later span starts with a later probe).
+func c18MaxHeld(spans []c18Span) (int, int64) {
+	type ev struct {
+		t int64
+		d int
+	}
+	var evs []ev
+	for _, s := range spans {
+		evs = append(evs, ev{s.from, +1}, ev{s.to + 1, -1})
+	}
+	sort.Slice(evs, func(i, j int) bool {
+		if evs[i].t != evs[j].t {
+			return evs[i].t < evs[j].t
+		}
+		return evs[i].d < evs[j].d
+	})
+	best, cur, at := 0, 0, int64(0)
+	for _, e := range evs {
+		cur += e.d
+		if cur > best {
+			best, at = cur, e.t
+		}
+	}
+	return best, at
+}
+
+// runC18 executes one history on the implementation and evaluates the property on it.  ok=false: the
+// history was dropped because the machine stalled in the middle of an operation (nothing is judged).
+func runC18(out *vlib.Out, conf c18Conf, ops []c18Op) (model string, impl string, ok bool) {
 	w := newC18World(conf)
 	var mops, outs []string
 	line := func() string { return conf.line() + strings.Join(mops, ";") }
@@ -271,6 +359,9 @@ func runC18(out *vlib.Out, conf c18Conf, ops []c18Op) (string, string) {
 			mops = append(mops, fmt.Sprintf("q,%d,%s,%d,%s", op.now, op.addr, op.port, vlib.B(op.probe)))
 			w.script = op.probe
 			live, err := w.t.PhantomIsLive(op.addr, op.port)
+			if time.Since(w.rnow) > c18StallLimit {
+				return "", "", false
+			}
 			cachedAns := errors.Is(err, ErrCachedPhantom)
 			switch {
 			case cachedAns && len(w.calls) == 0:
@@ -298,6 +389,28 @@ func runC18(out *vlib.Out, conf c18Conf, ops []c18Op) (string, string) {
 						fail("C18:served-flipped", fmt.Sprintf("%s served %v at %d, last measurement was %v at %d", op.addr, live, op.now, last.v, last.t))
 					} else if op.now-last.t >= lt {
 						fail("C18:served-stale", fmt.Sprintf("%s served %v at %d, measured at %d, lifetime %d", op.addr, live, op.now, last.t, lt))
+					} else {
+						// the entry measured at last.t existed from then until now
+						i := c18Idx(live)
+						if n := len(w.spans[i]); n > 0 && w.spans[i][n-1].addr == op.addr && w.spans[i][n-1].from == last.t {
+							w.spans[i][n-1].to = op.now
+						} else {
+							merged := false
+							for j := range w.spans[i] {
+								if w.spans[i][j].addr == op.addr && w.spans[i][j].from == last.t {
+									w.spans[i][j].to, merged = op.now, true
+								}
+							}
+							if !merged {
+								w.spans[i] = append(w.spans[i], c18Span{op.addr, last.t, op.now})
+							}
+						}
+						if last.port != op.port {
+							// reading of assumption 3 made visible: the verdict was measured on another port
+							out.Count("cached:port-differs-from-measured")
+						} else {
+							out.Count("cached:port-as-measured")
+						}
 					}
 				}
 				if w.gone[c18Idx(live)][op.addr] {
@@ -315,7 +428,7 @@ func runC18(out *vlib.Out, conf c18Conf, ops []c18Op) (string, string) {
 				}
 			}
 			for range w.calls {
-				w.meas[op.addr] = append(w.meas[op.addr], c18Meas{op.now, op.probe})
+				w.meas[op.addr] = append(w.meas[op.addr], c18Meas{op.now, op.probe, op.port})
 			}
 			out.Count("out:" + o[:1])
 		case 'c':
@@ -323,65 +436,130 @@ func runC18(out *vlib.Out, conf c18Conf, ops []c18Op) (string, string) {
 			if clt, ok := w.t.(*CachedLivenessTester); ok {
 				clt.ClearExpiredCache()
 			}
+			if time.Since(w.rnow) > c18StallLimit {
+				return "", "", false
+			}
 			o = "clr"
-			// oracle: what the clean-up leaves is not older than the lifetime; what it removes is not younger
+			// oracle: the clean-up leaves nothing that was measured longer ago than the lifetime
+			// (ground truth: the probe log; the stored time is what the code wrote)
 			for _, v := range []bool{true, false} {
 				lt, configured := w.lifetime(v)
 				if !configured || w.cache(v) == nil {
 					continue
 				}
 				out.Checked()
-				cur := c18Elems(w.cache(v))
-				for k, e := range cur {
-					if op.now-w.vtime[e] > lt {
-						fail("C18:expired-kept-by-cleanup", fmt.Sprintf("%s (verdict %v) age %d > lifetime %d survives ClearExpired", k, v, op.now-w.vtime[e], lt))
+				for k, e := range c18Elems(w.cache(v)) {
+					if age := op.now - w.storedAt(e); age > lt {
+						fail("C18:expired-kept-by-cleanup", fmt.Sprintf("%s (verdict %v) age %d > lifetime %d survives ClearExpired", k, v, age, lt))
+					}
+					// youngest probe of k with verdict v: an entry cannot be younger than that
+					young := int64(-1)
+					for _, m := range w.meas[k] {
+						if m.v == v {
+							young = m.t
+						}
+					}
+					if young >= 0 && op.now-young > lt && op.now-w.storedAt(e) <= lt {
+						fail("C18:expired-kept-by-cleanup", fmt.Sprintf("%s (verdict %v) was last measured %d ago (lifetime %d) and survives ClearExpired", k, v, op.now-young, lt))
 					}
 				}
 			}
 			out.Count("out:clr")
 		}
-		w.stamp(op.now)
-		// ---- bound at every operation boundary
+		w.track()
+		// ---- bound at every operation boundary (white-box: Len() and the verdict map itself)
 		for _, v := range []bool{true, false} {
 			if c := w.cache(v); c != nil && w.capacity(v) > 0 {
 				out.Checked()
-				if c.Len() > w.capacity(v) {
-					which := "nonlive"
-					if v {
-						which = "live"
-					}
-					fail("C18:over-capacity:"+which, fmt.Sprintf("%s cache holds %d entries, configured capacity %d (kind %s)", which, c.Len(), w.capacity(v), c18Kind(c)))
+				if n := len(c18Elems(c)); c.Len() > w.capacity(v) || n > w.capacity(v) {
+					fail("C18:over-capacity:"+c18Which(v), fmt.Sprintf("%s cache holds %d entries (Len() = %d), configured capacity %d (kind %s)", c18Which(v), n, c.Len(), w.capacity(v), c18Kind(c)))
 				}
 			}
 		}
 		outs = append(outs, o+":"+w.lens())
 		out.Count("op:" + string(op.kind))
 	}
+	// ---- bound, black-box: never more than `capacity` measurements demonstrably held at once
+	for _, v := range []bool{true, false} {
+		if c := w.capacity(v); c > 0 && len(w.spans[c18Idx(v)]) > 0 {
+			out.Checked()
+			if n, at := c18MaxHeld(w.spans[c18Idx(v)]); n > c {
+				fail("C18:held-over-capacity:"+c18Which(v), fmt.Sprintf("%d distinct addresses were answered from %s-cache measurements that all existed at time %d, configured capacity %d", n, c18Which(v), at, c))
+			}
+		}
+	}
 	out.Count("new:" + strings.SplitN(w.newLine(), " err", 2)[0])
-	return line(), w.newLine() + "|" + strings.Join(outs, ";") + "|" + w.dump()
+	return line(), w.newLine() + "|" + strings.Join(outs, ";") + "|" + w.dump(), true
 }
 
 var c18Addrs = []string{"192.0.2.1", "192.0.2.2", "2001:db8::3", "192.0.2.4", "192.0.2.5", "2001:db8::6", "192.0.2.7", "192.0.2.8"}
 
-// c18Timed assigns times: op i happens at (hours so far)·1h + (i+1)·10s.
 type c18Sym struct {
-	kind  byte // 'q', 'c', 'a' (advance one hour, not an operation of the tester)
+	kind  byte // 'q', 'c', 'a' (advance whole hours, not an operation of the tester), 'n' (query near a lifetime boundary)
 	addr  int
 	probe bool
 	hours int
+	back  int  // 'n': which earlier query of the same address is the reference (0 = the most recent)
+	after bool // 'n': 1 s after the boundary instead of 1 s before
+	live  bool // 'n': boundary of the live lifetime instead of the non-live one
 }
 
-func c18Build(syms []c18Sym, r *vlib.Rand) []c18Op {
+// c18Build assigns times.  Ordinary operations are 10 s apart, 'a' adds whole hours, 'n' jumps to 1 s
+// before / after the instant at which an earlier query of the same address is exactly one lifetime old
+// (an ordinary operation when that instant has passed).  No operation is ever placed exactly one
+// configured lifetime after an earlier operation.
+func c18Build(conf c18Conf, syms []c18Sym, r *vlib.Rand) []c18Op {
 	var ops []c18Op
-	hours := int64(0)
+	var lts []int64
+	for _, v := range []bool{true, false} {
+		if lt, ok := conf.lifetime(v); ok {
+			lts = append(lts, lt)
+		}
+	}
+	used := map[int64]bool{}
+	cur := int64(0)
 	for _, s := range syms {
 		if s.kind == 'a' {
-			hours += int64(s.hours)
+			cur += int64(s.hours) * c18Hour
 			continue
 		}
-		i := int64(len(ops) + 1)
-		op := c18Op{kind: s.kind, now: hours*c18Hour + i*c18Jitter}
-		if s.kind == 'q' {
+		t := cur + c18Jitter
+		if s.kind == 'n' {
+			if lt, ok := conf.lifetime(s.live); ok && lt > 0 {
+				back := s.back
+				for j := len(ops) - 1; j >= 0; j-- {
+					if ops[j].kind == 'q' && ops[j].addr == c18Addrs[s.addr] {
+						if back == 0 {
+							cand := ops[j].now + lt - c18Sec
+							if s.after {
+								cand = ops[j].now + lt + c18Sec
+							}
+							if cand > cur {
+								t = cand
+							}
+							break
+						}
+						back--
+					}
+				}
+			}
+		}
+		for exact := true; exact; {
+			exact = false
+			for _, lt := range lts {
+				if used[t-lt] {
+					exact = true
+				}
+			}
+			if exact {
+				t += 2 * c18Sec
+			}
+		}
+		cur = t
+		used[t] = true
+		op := c18Op{kind: s.kind, now: t}
+		if s.kind == 'q' || s.kind == 'n' {
+			op.kind = 'q'
 			op.addr = c18Addrs[s.addr]
 			op.probe = s.probe
 			op.port = 443
@@ -407,11 +585,24 @@ func TestVerifC18(t *testing.T) {
 		return
 	}
 	run := func(conf c18Conf, syms []c18Sym, r *vlib.Rand) {
-		m, i := runC18(out, conf, c18Build(syms, r))
-		out.Case(m, i, !strings.Contains(i, "err=") && len(syms) > 0)
+		ops := c18Build(conf, syms, r)
+		for attempt := 0; ; attempt++ {
+			m, i, ok := runC18(out, conf, ops)
+			if ok {
+				out.Case(m, i, !strings.Contains(i, "err=") && len(syms) > 0)
+				return
+			}
+			out.Count("skip:stalled")
+			if attempt == 2 {
+				return
+			}
+		}
 	}
 	q := func(a int, p bool) c18Sym { return c18Sym{kind: 'q', addr: a, probe: p} }
 	adv := func(h int) c18Sym { return c18Sym{kind: 'a', hours: h} }
+	near := func(a int, p bool, live bool, after bool) c18Sym {
+		return c18Sym{kind: 'n', addr: a, probe: p, live: live, after: after}
+	}
 	clr := c18Sym{kind: 'c'}
 
 	// ---- corpus: hand-written tricky histories
@@ -425,6 +616,11 @@ func TestVerifC18(t *testing.T) {
 		{c18Conf{"2h", "1h", 2, 0}, []c18Sym{q(0, false), q(1, false), q(2, false), q(0, true), q(1, true), q(2, true), q(0, true)}},
 		// non-live only, bounded
 		{c18Conf{"", "1h", 0, 1}, []c18Sym{q(0, false), q(1, false), q(0, false), q(1, true), q(1, true)}},
+		// live only / non-live only and a host of the other kind, queried repeatedly (never cached)
+		{c18Conf{"", "1h", 0, 0}, []c18Sym{q(0, true), q(0, true), q(0, true), q(1, false), q(0, true), q(1, false)}},
+		{c18Conf{"", "1h", 0, 2}, []c18Sym{q(0, true), q(0, true), q(1, true), q(1, true), q(0, false), q(0, true)}},
+		{c18Conf{"2h", "", 0, 0}, []c18Sym{q(0, false), q(0, false), q(0, true), q(0, false)}},
+		{c18Conf{"2h", "", 1, 0}, []c18Sym{q(0, false), q(0, false), q(1, false), q(0, true), q(0, false)}},
 		// host changes state after expiry: live → non-live → live
 		{c18Conf{"2h", "1h", 0, 0}, []c18Sym{q(0, true), q(0, false), adv(2), q(0, false), q(0, true), adv(1), q(0, true), q(0, true), adv(2), q(0, false)}},
 		{c18Conf{"1h", "3h", 2, 2}, []c18Sym{q(0, false), adv(3), q(0, true), q(0, false), adv(1), q(0, false), q(0, true), clr, q(0, true)}},
@@ -439,6 +635,13 @@ func TestVerifC18(t *testing.T) {
 		{c18Conf{"bogus", "1h", 0, 0}, nil},
 		{c18Conf{"1h", "bogus", 1, 0}, nil},
 		{c18Conf{"1h", "1h", -1, -3}, []c18Sym{q(0, true), q(1, false), q(0, false)}},
+		// a verdict that keeps being asked for must still expire one lifetime after it was MEASURED
+		// (hits every 10 s up to the boundary, then 1 s before and 1 s after it)
+		{c18Conf{"1h", "1h", 0, 0}, []c18Sym{q(0, true), q(0, true), q(0, true), {kind: 'n', addr: 0, probe: true, live: true, back: 2}, {kind: 'n', addr: 0, probe: true, live: true, back: 3, after: true}, q(0, true)}},
+		{c18Conf{"1h", "1h", 2, 2}, []c18Sym{q(0, false), q(0, false), q(1, false), q(0, false), {kind: 'n', addr: 0, probe: false, back: 2}, {kind: 'n', addr: 0, probe: false, back: 3, after: true}, q(0, false), clr}},
+		{c18Conf{"2h", "1h", 3, 0}, []c18Sym{q(0, true), adv(1), q(0, true), q(1, true), near(0, true, true, false), near(0, true, true, true), clr, q(0, true)}},
+		// clean-up 1 s before / after the lifetime of a stored entry
+		{c18Conf{"1h", "2h", 0, 1}, []c18Sym{q(0, true), q(1, false), near(0, true, true, false), clr, near(0, true, true, true), clr, near(1, false, false, false), clr, near(1, false, false, true), clr}},
 	}
 	for _, c := range corpus {
 		run(c.c, c.s, nil)
@@ -500,12 +703,26 @@ func TestVerifC18(t *testing.T) {
 		conf.capL, conf.capN = pickCap(), pickCap()
 		na := r.Range(1, len(c18Addrs))
 		var syms []c18Sym
+		// three styles: mixed; "busy" (few advances: entries are hit again and again until they expire);
+		// "churn" (many distinct hosts, no advances: evictions)
+		style := r.Intn(4)
 		for j, m := 0, r.Range(3, 300); j < m; j++ {
-			switch k := r.Intn(20); {
-			case k < 14:
+			k := r.Intn(20)
+			if style == 1 && k >= 14 && k < 18 && r.Chance(2, 3) {
+				k = 0
+			}
+			if style == 2 && k >= 14 && r.Chance(3, 4) {
+				k = 0
+			}
+			switch {
+			case k < 12:
 				// hosts mostly keep their state, sometimes flip
 				a := r.Intn(na)
 				syms = append(syms, q(a, (a%2 == 0) != r.Chance(1, 5)))
+			case k < 14:
+				// 1 s before / after an earlier query of this address reaches a lifetime
+				a := r.Intn(na)
+				syms = append(syms, c18Sym{kind: 'n', addr: a, probe: (a%2 == 0) != r.Chance(1, 5), back: r.Intn(4), after: r.Bool(), live: r.Bool()})
 			case k < 17:
 				syms = append(syms, adv(r.Range(1, 3)))
 			case k < 18:
@@ -517,80 +734,194 @@ func TestVerifC18(t *testing.T) {
 		run(conf, syms, r)
 	}
 
-	c18Stress(out, r)
+	c18Stress(out, r, vlib.Budget(8, 60))
 }
 
-// c18Stress: concurrent callers on both LRU caches; at quiescence the bound must hold and every
-// verdict map key must be tracked by the recency list (oracle only — schedules are not replayable).
-func c18Stress(out *vlib.Out, r *vlib.Rand) {
-	rounds := vlib.Budget(6, 60)
+// TestVerifC18Race is the concurrent part alone, meant to be run under the race detector.
+func TestVerifC18Race(t *testing.T) {
+	out := vlib.Open("C18race")
+	defer out.Close()
+	if vlib.Replay() != "" {
+		return
+	}
+	c18Stress(out, vlib.NewRand("C18race"), vlib.Budget(3, 12))
+}
+
+// ---------------------------------------------------------------------------------------------
+// concurrent stress (oracle only — schedules are not replayable)
+
+type c18StressEv struct {
+	host   int
+	qs, qe int64 // sequence numbers drawn when the call started / returned
+	cached bool
+	v      bool
+}
+
+// c18Stress: concurrent callers on both caches, hosts that change state, entries that are aged past
+// their lifetime while queries, clean-ups and evictions are in flight.  Oracles:
+//   - during the run (evaluated afterwards from the logs): a verdict answered from the cache was
+//     measured for that address by a probe that started before the answer returned, and it is not
+//     contradicted by a later measurement that had completed before the query started;
+//   - at quiescence: the bound holds, every verdict-map key is tracked by the recency list, a clean-up
+//     leaves no entry that is older than the lifetime.
+func c18Stress(out *vlib.Out, r *vlib.Rand, rounds int) {
+	const nHosts = 36
 	for round := 0; round < rounds; round++ {
 		capL, capN := r.Range(1, 6), r.Range(1, 6)
+		// shapes: both LRU (mostly), one of the two an unbounded map
+		switch round % 5 {
+		case 3:
+			capL = 0
+		case 4:
+			capN = 0
+		}
 		w := newC18World(c18Conf{"1h", "1h", capL, capN})
 		clt := w.t.(*CachedLivenessTester)
-		var mu sync.Mutex
-		verdict := map[string]bool{}
+		where := fmt.Sprintf("stress capL=%d capN=%d seed=%d round=%d", capL, capN, vlib.Seed(), round)
+		var state [nHosts]atomic.Bool // the verdict a probe of the host returns right now
+		for h := range state {
+			state[h].Store(h%2 == 0)
+		}
+		hostName := func(h int) string { return fmt.Sprintf("10.0.%d.%d", h/9, h%9) }
+		hostIdx := map[string]int{}
+		for h := 0; h < nHosts; h++ {
+			hostIdx[hostName(h)+":443"] = h
+		}
 		clt.phantomIsLive = func(address string) (bool, error) {
-			mu.Lock()
-			defer mu.Unlock()
-			v := c18StressVerdict(strings.Split(address, ":")[0])
-			verdict[address] = v
-			if v {
+			if state[hostIdx[address]].Load() {
 				return true, ErrLiveHost
 			}
 			return false, NotLive
 		}
+		// age one entry of a cache past its lifetime.  The element is replaced, not written to:
+		// lruCache.Lookup reads cachedTime after releasing the lock.
+		age := func(c cache, pick uint64) {
+			switch cc := c.(type) {
+			case *mapCache:
+				cc.m.Lock()
+				for k, e := range cc.ipCache {
+					if pick%3 == 0 {
+						cc.ipCache[k] = &cacheElement{cachedTime: e.cachedTime.Add(-2 * time.Hour)}
+						break
+					}
+					pick /= 3
+				}
+				cc.m.Unlock()
+			case *lruCache:
+				cc.m.Lock()
+				for k, e := range cc.ipCache {
+					if pick%3 == 0 {
+						cc.ipCache[k] = &cacheElement{cachedTime: e.cachedTime.Add(-2 * time.Hour)}
+						break
+					}
+					pick /= 3
+				}
+				cc.m.Unlock()
+			}
+		}
+		var seq atomic.Int64
 		var wg sync.WaitGroup
-		seeds := make([]uint64, 8)
+		const workers = 8
+		seeds := make([]uint64, workers)
 		for i := range seeds {
 			seeds[i] = r.U64()
 		}
-		var bad sync.Map
-		for g := 0; g < 8; g++ {
+		logs := make([][]c18StressEv, workers)
+		for g := 0; g < workers; g++ {
 			wg.Add(1)
-			go func(s uint64) {
+			go func(g int, s uint64) {
 				defer wg.Done()
 				for i := 0; i < 1500; i++ {
 					s = s*6364136223846793005 + 1442695040888963407
-					a := fmt.Sprintf("10.0.%d.%d", (s>>33)%3, (s>>40)%9)
-					if (s>>50)%40 == 0 {
+					h := int((s >> 33) % nHosts)
+					switch x := (s >> 50) % 120; {
+					case x < 3:
 						clt.ClearExpiredCache()
 						continue
+					case x < 9:
+						age(w.cache(x%2 == 0), s>>20)
+						continue
+					case x < 11 && h >= 27:
+						// only the last quarter of the hosts ever changes state
+						state[h].Store(!state[h].Load())
+						continue
 					}
-					live, err := clt.PhantomIsLive(a, 443)
-					if errors.Is(err, ErrCachedPhantom) {
-						// hosts never change state here: a cached answer must equal the host's only verdict
-						if live != c18StressVerdict(a) {
-							bad.Store(a, live)
-						}
-					}
+					ev := c18StressEv{host: h, qs: seq.Add(1)}
+					live, err := clt.PhantomIsLive(hostName(h), 443)
+					ev.qe = seq.Add(1)
+					ev.cached, ev.v = errors.Is(err, ErrCachedPhantom), live
+					logs[g] = append(logs[g], ev)
 				}
-			}(seeds[g])
+			}(g, seeds[g])
 		}
 		wg.Wait()
 		out.Checked()
-		bad.Range(func(k, v any) bool {
-			out.OracleFail("C18:concurrent-flipped", fmt.Sprintf("%v served %v under concurrency", k, v), fmt.Sprintf("stress capL=%d capN=%d seed=%d round=%d", capL, capN, vlib.Seed(), round))
-			return true
-		})
-		for _, v := range []bool{true, false} {
-			lc := w.cache(v).(*lruCache)
-			if lc.Len() > w.capacity(v) {
-				out.OracleFail("C18:over-capacity:concurrent", fmt.Sprintf("verdict %v: %d entries at quiescence, capacity %d", v, lc.Len(), w.capacity(v)),
-					fmt.Sprintf("stress capL=%d capN=%d seed=%d round=%d", capL, capN, vlib.Seed(), round))
+		// ---- verdicts served during the run
+		perHost := make([][]c18StressEv, nHosts)
+		for _, l := range logs {
+			for _, e := range l {
+				perHost[e.host] = append(perHost[e.host], e)
 			}
-			for k := range lc.ipCache {
-				if !lc.lru.Contains(k) {
-					out.OracleFail("C18:untracked-entry:concurrent", fmt.Sprintf("verdict %v: %s is in the verdict map but not in the recency list", v, k),
-						fmt.Sprintf("stress capL=%d capN=%d seed=%d round=%d", capL, capN, vlib.Seed(), round))
+		}
+		for h, evs := range perHost {
+			for _, q := range evs {
+				if !q.cached {
+					continue
+				}
+				measured, lastEnd := false, int64(0)
+				for _, p := range evs {
+					if !p.cached && p.v == q.v && p.qs < q.qe {
+						measured = true
+						if p.qe > lastEnd {
+							lastEnd = p.qe
+						}
+					}
+				}
+				if !measured {
+					out.OracleFail("C18:concurrent-flipped", fmt.Sprintf("%s served %v under concurrency, no probe of it had answered %v", hostName(h), q.v, q.v), where)
+					continue
+				}
+				for _, p := range evs {
+					// a whole query (lookup, probe, store) with the other verdict that began after every
+					// measurement of q.v had been stored and that returned before q began
+					if !p.cached && p.v != q.v && p.qs > lastEnd && p.qe < q.qs {
+						out.OracleFail("C18:concurrent-flipped", fmt.Sprintf("%s served %v under concurrency after a later, completed measurement said %v", hostName(h), q.v, p.v), where)
+						break
+					}
 				}
 			}
 		}
+		// ---- quiescence
+		quiescent := func(stage string) {
+			for _, v := range []bool{true, false} {
+				lc, isLRU := w.cache(v).(*lruCache)
+				if !isLRU {
+					continue
+				}
+				if lc.Len() > w.capacity(v) || len(lc.ipCache) > w.capacity(v) {
+					out.OracleFail("C18:over-capacity:concurrent", fmt.Sprintf("verdict %v: %d entries at quiescence (%s), capacity %d", v, len(lc.ipCache), stage, w.capacity(v)), where)
+				}
+				for k := range lc.ipCache {
+					if !lc.lru.Contains(k) {
+						out.OracleFail("C18:untracked-entry:concurrent", fmt.Sprintf("verdict %v: %s is in the verdict map but not in the recency list (%s)", v, k, stage), where)
+					}
+				}
+			}
+		}
+		quiescent("after the run")
+		clt.ClearExpiredCache()
+		for _, v := range []bool{true, false} {
+			for k, e := range c18Elems(w.cache(v)) {
+				// aged entries are more than 2 h old, all others a few seconds: nothing is near the 1 h lifetime
+				if time.Since(e.cachedTime) > 90*time.Minute {
+					out.OracleFail("C18:expired-kept-by-cleanup:concurrent", fmt.Sprintf("verdict %v: %s is older than the lifetime after ClearExpiredCache at quiescence", v, k), where)
+				}
+			}
+		}
+		quiescent("after the clean-up")
 		out.Count("stress:round")
 	}
 }
-
-func c18StressVerdict(host string) bool { return host[len(host)-1]%2 == 0 }
 
 // c18Replay re-runs `cache|…` model lines of a replay file against the implementation.
 func c18Replay(t *testing.T, out *vlib.Out, path string) {
@@ -599,6 +930,12 @@ func c18Replay(t *testing.T, out *vlib.Out, path string) {
 		t.Fatal(err)
 	}
 	for _, line := range strings.Split(string(b), "\n") {
+		if strings.HasPrefix(line, "stress ") {
+			// a failure of the concurrent run: the schedule cannot be replayed, the run is repeated
+			fmt.Println("REPLAY stress run repeated:", line)
+			c18Stress(out, vlib.NewRand("C18"), 12)
+			continue
+		}
 		if !strings.HasPrefix(line, "cache|") {
 			continue
 		}
@@ -635,7 +972,11 @@ func c18Replay(t *testing.T, out *vlib.Out, path string) {
 				ops = append(ops, c18Op{kind: 'c', now: now})
 			}
 		}
-		m, i := runC18(out, conf, ops)
+		m, i, ok := runC18(out, conf, ops)
+		if !ok {
+			fmt.Println("REPLAY dropped (the machine stalled during an operation):", line)
+			continue
+		}
 		out.Case(m, i, true)
 		fmt.Println("REPLAY model-line:", m)
 		fmt.Println("REPLAY impl      :", i)
